@@ -771,6 +771,10 @@ fn speed_limit_case(ctx: &mut Ctx, r: &mut Rng, max_steps: usize) {
                 // the limit in force is never above the posted profile at the position the step started from
                 let posted = crate::b_sp::val_at(tpc.speed_points(), p.offset.value).abs();
                 chk(ctx, "C03", "limit_le_posted", s.speed_limit.value <= posted, format!("limit in force {} > posted {} at {}", s.speed_limit.value, posted, p.offset.value));
+                // the speed itself against the posted profile; when the limit in force is already above the posted one the
+                // step is reported by limit_le_posted (one defect, one report)
+                chk(ctx, "C03", "speed_le_posted", p.speed.value <= posted * (1.0 + 1e-12) || s.speed_limit.value > posted,
+                    format!("speed {} > posted limit {} at {} although the limit in force is {}", p.speed.value, posted, p.offset.value, s.speed_limit.value));
                 chk(ctx, "C03", "speed_le_limit_in_force", p.speed.value <= s.speed_limit.value, format!("speed {} > limit in force {} at {}", p.speed.value, s.speed_limit.value, p.offset.value));
                 chk(ctx, "C12", "time_advances_by_dt", close(s.time.value - p.time.value, dt, 1.0), "time".into());
                 chk(ctx, "C12", "position_advances_by_mean_speed", close(s.offset.value - p.offset.value, dt * 0.5 * (p.speed.value + s.speed.value), 1000.0) || s.speed.value == s.speed_target.value,
